@@ -1,6 +1,7 @@
 /-
   C15 — a target's hash depends only on its final labels and URL, and is stable.
 -/
+import Kvass.Pins.Disc
 import Kvass.Model.Hash
 
 namespace Kvass.Props.C15
